@@ -1019,6 +1019,28 @@ def _run_pool(worker, jobs, chunksize=1):
         return pool.map(worker, jobs, chunksize=chunksize)
 
 
+class _Also:
+    """every failing case of each (fid, clause) key, in enumeration order, without repetitions
+    (the `also` list of tools/BOUNDED_GUIDE.md)"""
+
+    CAP = 300
+
+    def __init__(self):
+        self.cases = {}
+        self.seen = set()
+
+    def add(self, key, case):
+        import json
+
+        k = (key, json.dumps(case, sort_keys=True))
+        if k not in self.seen:
+            self.seen.add(k)
+            self.cases.setdefault(key, []).append(case)
+
+    def get(self, key, default_case):
+        return self.cases.get(key, [default_case])[: self.CAP]
+
+
 def bounded_abbreviated_code(tier='quick'):
     programs = []
     counts = {}
@@ -1040,6 +1062,7 @@ def bounded_abbreviated_code(tier='quick'):
     results = _run_pool(_check_programs, jobs)
 
     nontrivial = 0
+    also = _Also()
     for job, res in zip(jobs, results):
         for i, nt, fl in res:
             nontrivial += bool(nt)
@@ -1048,14 +1071,16 @@ def bounded_abbreviated_code(tier='quick'):
                 fid = FID_PARSE_TREE if kind.split('/')[0] in ('block', 'nested', 'logif') else FID_EXPR
                 key = (fid, clause)
                 size = (len(lines), sum(len(x) for x in lines), lines)
+                also.add(key, {'kind': kind, 'lines': lines, 'clause': clause})
                 if key not in fails or size < fails[key]['_size']:
                     fails[key] = {
                         'fid': fid, 'clause': clause,
                         'detail': detail + ' for program ' + ' | '.join(x.strip() for x in lines),
                         'case': {'kind': kind, 'lines': lines, 'clause': clause},
                         'replay_fn': 'bounded_abbreviated_code_replay', '_size': size}
-    for f in fails.values():
+    for key, f in fails.items():
         f.pop('_size', None)
+        f['also'] = also.get(key, f['case'])
     depth = 3 if tier == 'thorough' else 2
     return {
         'cases': len(programs),
@@ -1612,17 +1637,20 @@ def bounded_omega_theta_parse(tier='quick'):
     cases, nt, nc = _param_cases(tier)
     results = _run_pool(_check_param_case, cases)
     fails = {}
+    also = _Also()
     for case, res in zip(cases, results):
         for fid, clause, detail, which in res:
             cj = _case_json(case, which)
             size = len(str(cj))
             key = (fid, clause)
+            also.add(key, dict(cj, clause=clause))
             if key not in fails or size < fails[key]['_size']:
                 fails[key] = {'fid': fid, 'clause': clause, 'detail': detail,
                               'case': dict(cj, clause=clause),
                               'replay_fn': 'bounded_omega_theta_parse_replay', '_size': size}
-    for f in fails.values():
+    for key, f in fails.items():
         f.pop('_size')
+        f['also'] = also.get(key, f['case'])
     nthetas = sum(len(c['theta'][1]) for c in cases[:nt])
     return {
         'cases': len(cases),
@@ -2053,12 +2081,16 @@ def bounded_advan_trans(tier='quick'):
     def size(c):
         return (c['data'] != 'nodata', c['attr'] != 'none', c['scale'] != 'none', c['advan'], c['trans'])
 
+    also = _Also()
     for case, res in zip(cases, results):
         for fid, clause, detail in res:
             key = (fid, clause)
+            also.add(key, dict(case, clause=clause))
             if key not in fails or size(case) < size(fails[key]['case']):
                 fails[key] = {'fid': fid, 'clause': clause, 'detail': detail,
                               'case': dict(case, clause=clause), 'replay_fn': 'bounded_advan_trans_replay'}
+    for key, f in fails.items():
+        f['also'] = also.get(key, f['case'])
     return {
         'cases': len(cases),
         'nontrivial': len(cases),
@@ -2132,6 +2164,12 @@ def gen_roundtrip_cases(tier):
         absorption = ['set_first_order_absorption', 'set_zero_order_absorption', 'set_seq_zo_fo_absorption',
                       'set_transit_compartments_2']
         cases += [[a, b] for a in elim for b in absorption] + [[b, a] for a in elim for b in absorption]
+    # through the $DES representation and back to a library ADVAN with another structure than before
+    back = [[a, s, 'set_first_order_elimination']
+            for a in ('set_michaelis_menten_elimination', 'set_mixed_mm_fo_elimination')
+            for s in ('add_peripheral_compartment', 'set_peripheral_compartments_2', 'set_first_order_absorption',
+                      'set_transit_compartments_2')]
+    cases += [c for c in back if c not in cases]
     return cases
 
 
@@ -2648,12 +2686,14 @@ def bounded_codegen_roundtrip(tier='quick'):
         rt_res = rt_async.get()
         pr_res = pr_async.get()
     fails = {}
+    also = _Also()
     nontrivial = 0
     for seq, (nt, fl) in zip(rt_cases, rt_res):
         nontrivial += bool(nt)
         for fid, clause, detail in fl:
             key = (fid, clause)
             size = (len(seq), len(' '.join(seq)))
+            also.add(key, {'kind': 'roundtrip', 'transformations': seq, 'clause': clause})
             if key not in fails or size < fails[key]['_size']:
                 fails[key] = {'fid': fid, 'clause': clause, 'detail': detail,
                               'case': {'kind': 'roundtrip', 'transformations': seq, 'clause': clause},
@@ -2664,12 +2704,14 @@ def bounded_codegen_roundtrip(tier='quick'):
             for fid, clause, detail in fl:
                 key = (fid, clause)
                 size = (1, len(str(job[i])))
+                also.add(key, {'kind': 'print', 'case': job[i], 'clause': clause})
                 if key not in fails or size < fails[key]['_size']:
                     fails[key] = {'fid': fid, 'clause': clause, 'detail': detail,
                                   'case': {'kind': 'print', 'case': job[i], 'clause': clause},
                                   'replay_fn': 'bounded_codegen_roundtrip_replay', '_size': size}
-    for f in fails.values():
+    for key, f in fails.items():
         f.pop('_size')
+        f['also'] = also.get(key, f['case'])
     ntr = len(_transformations())
     return {
         'cases': len(rt_cases) + len(pr_cases),
@@ -2678,6 +2720,7 @@ def bounded_codegen_roundtrip(tier='quick'):
             f'pheno example model and all models reached by <={2 if tier == "thorough" else 1} of {ntr} structural '
             f'transformations (absorption, elimination, peripheral/transit compartments, lag time, '
             f'bioavailability, ODE solver){"" if tier == "thorough" else " plus the 24 ordered pairs elimination x absorption"} '
+            f'plus 8 sequences non-linear elimination ; structure change ; first-order elimination '
             f'[{len(rt_cases)}], written to disk and read back, compared '
             f'numerically at 3 points over all compartment numberings; printer: all {nexpr} distinct sympy '
             f'expressions from trees of depth <=2 over + - * / ** unary- exp log sqrt with operands WGT, AGE, '
